@@ -132,7 +132,7 @@ TReset ==
   /\ lh' = [t \in Threads |-> FALSE] /\ q' = [t \in Threads |-> <<>>] /\ got' = [t \in Threads |-> <<>>]
   /\ closed' = [t \in Threads |-> FALSE]
   /\ ackAt' = [t \in Threads |-> -1] /\ cancelled' = [t \in Threads |-> FALSE]
-  /\ cancelAt' = [t \in Threads |-> 0] /\ unregAcked' = {} /\ lateSend' = FALSE
+  /\ cancelAt' = [t \in Threads |-> 0] /\ unregAcked' = {} /\ lateSend' = FALSE /\ devUsed' = {}
   /\ want' = [t \in Threads |-> FALSE] /\ hint' = [t \in Threads |-> ""]
 
 \* silent steps
@@ -149,7 +149,7 @@ TNext == \/ TPoint \/ TSubCall \/ TSubAck \/ TCancel \/ TCancelRet \/ TClosed \/
 \* accumulated in `bad` and printed when the scenario has been consumed completely
 \* (a branch of TLC's search that guesses the unlogged steps wrongly dies before).
 TStep == \/ TNext /\ bad' = bad \cup Violated'
-         \/ TReset /\ bad' = {} /\ PrintT(<<"VIOL", l, bad>>)
+         \/ TReset /\ bad' = {} /\ PrintT(<<"VIOL", ToJson([l |-> l, bad |-> bad, dev |-> devUsed])>>)
 TInit == Init /\ l = 1 /\ want = [t \in Threads |-> FALSE] /\ hint = [t \in Threads |-> ""]
          /\ bad = {}
 TSpec == TInit /\ [][TStep]_tvars
